@@ -25,7 +25,7 @@
    chain"), and anything about histories with SetHead or header imports beyond the refutations
    (checked by the direct oracle and the correspondence after every operation). *)
 From Coq Require Import NArith List.
-From AQ Require Import Chain.Store Chain.ChainSpec Chain.ChainProofs Chain.Crash Chain.ChainReopen Chain.ChainCanon Chain.ChainAllOps Chain.ChainAllOpsWitness Chain.ChainWitness.
+From AQ Require Import Chain.Store Chain.ChainSpec Chain.ChainProofs Chain.Crash Chain.ChainReopen Chain.ChainCanon Chain.ChainLookup Chain.ChainAllOps Chain.ChainAllOpsWitness Chain.ChainWitness.
 Import ListNotations.
 Local Open Scope N_scope.
 
@@ -180,6 +180,65 @@ Theorem C03_head_named_partial : forall (U : N -> sblock) (g : header),
   canon (dsk s) (s_num (cur_block s)) = s_hash (cur_block s) /\ hb (dsk s) = s_hash (cur_block s).
 Proof. exact head_named. Qed.
 Print Assumptions C03_head_named_partial.
+
+(* round 6, full forms of the two partial statements above, for every history of imports AND
+   restarts: (a) all of canon_below, its top clause, the LastBlock pointer and the head block's
+   own record; (b) the stored ancestry of the head reaches every height down to genesis through
+   stored parent links, is what the number index names, and header, body, receipts and total
+   difficulty of each ancestor are retrievable.  The `_partial` ones are kept (the first also
+   carries the C02 clauses has_state / grounded / heaviest for import-only histories). *)
+Theorem C03_head_named : forall (U : N -> sblock) (g : header),
+  U (h_hash g) = (g, []) -> h_number g = 0 ->
+  forall (d0 : disk), h_hash g <> 0 -> d0 = genesis_disk g ->
+  forall ops,
+  imports_and_reopens ops ->
+  (forall b, In b (blocks_of ops) -> wf_block U b /\ h_hash (b_hdr b) <> 0) ->
+  let s := run ops (pre_open g) in
+  canon_below s /\
+  canon (dsk s) (s_num (cur_block s)) = s_hash (cur_block s) /\ hb (dsk s) = s_hash (cur_block s) /\
+  block_of (dsk s) (s_hash (cur_block s)) = Some (cur_block s).
+Proof. exact head_named_full. Qed.
+Print Assumptions C03_head_named.
+
+Theorem C03_stored_ancestry : forall (U : N -> sblock) (g : header),
+  U (h_hash g) = (g, []) -> h_number g = 0 ->
+  forall (d0 : disk), h_hash g <> 0 -> d0 = genesis_disk g ->
+  forall ops,
+  imports_and_reopens ops ->
+  (forall b, In b (blocks_of ops) -> wf_block U b /\ h_hash (b_hdr b) <> 0) ->
+  let s := run ops (pre_open g) in
+  block_of (dsk s) (s_hash (cur_block s)) = Some (cur_block s) /\
+  (forall n, n <= s_num (cur_block s) ->
+     exists h, ancestor_at (dsk s) (s_hash (cur_block s)) n = Some h /\ canon (dsk s) n = h /\
+       header_of (dsk s) h <> None /\ body_of (dsk s) h <> None /\
+       receipts_of (dsk s) h <> None /\ td_of (dsk s) h <> None).
+Proof. exact stored_ancestry_full. Qed.
+Print Assumptions C03_stored_ancestry.
+
+(* round 6, completeness half of lookup_exact: NOT closed.  What is proved: given the soundness
+   half (above), completeness follows for every history of imports and restarts from two facts
+   about the final state: no transaction twice on the canonical chain ([canon_txs_once]; in the
+   Go code: nonces) and every canonical transaction has SOME entry ([lookup_nonempty]).  Open:
+   [lookup_nonempty] as an invariant of reorg (it deletes only deleted \ added).  The example
+   shows that the first premise is needed in the model (validity is an oracle there). *)
+Theorem C03_lookup_complete_given_nonempty_partial : forall (U : N -> sblock) (g : header),
+  U (h_hash g) = (g, []) -> h_number g = 0 ->
+  forall (d0 : disk), h_hash g <> 0 -> d0 = genesis_disk g ->
+  forall ops,
+  imports_and_reopens ops ->
+  (forall b, In b (blocks_of ops) -> wf_block U b /\ h_hash (b_hdr b) <> 0) ->
+  let s := run ops (pre_open g) in
+  canon_txs_once s -> lookup_nonempty s ->
+  forall n l i t, n <= s_num (cur_block s) -> body_of (dsk s) (canon (dsk s) n) = Some l ->
+    nth_error l (N.to_nat i) = Some t -> lookup_of (dsk s) t = Some (canon (dsk s) n, n, i).
+Proof. exact lookup_complete_given_nonempty. Qed.
+Print Assumptions C03_lookup_complete_given_nonempty_partial.
+
+Example C03_lookup_complete_needs_unique_txs :
+  let s := run ops_tx_twice (init_state (mkH 1 0 0 100 1)) in
+  s_num (cur_block s) = 2 /\ canon (dsk s) 1 = 2 /\ body_of (dsk s) 2 = Some [7; 8] /\
+  lookup_of (dsk s) 7 = Some (3, 2, 0) /\ lookup_of (dsk s) 8 = Some (2, 1, 1).
+Proof. exact tx_twice_owned_by_later. Qed.
 
 (* non-vacuity + the tie C04 builds on: the write log replays to the disk *)
 Example C03_log_replays :
